@@ -378,8 +378,20 @@ class CaT(Channel):
         v_u1 = v + vx + 81.0
         u_inf = 1.0 / (1.0 + save_exp(v_u1 / 4))
 
-        tau_u = (30.8 + (211.4 + save_exp((v + vx + 113.2) / 5.0))) / (
-            3.7 * (1 + save_exp((v + vx + 84.0) / 3.2))
+        # tau_u = (30.8 + 211.4 + exp(a)) / (3.7 * (1 + exp(b))). Both exponents grow
+        # with v and `save_exp` clips them at different voltages (b from -20 mV, a from
+        # -13.2 mV), which made tau_u wrong by orders of magnitude during spikes. For
+        # b > 0 the fraction is therefore rescaled by exp(-b), such that no exponent is
+        # positive and nothing is clipped.
+        a = (v + vx + 113.2) / 5.0
+        b = (v + vx + 84.0) / 3.2
+        pos = b > 0.0
+        a_lo, b_lo = jnp.where(pos, 0.0, a), jnp.where(pos, 0.0, b)
+        b_hi, amb_hi = jnp.where(pos, b, 0.0), jnp.where(pos, a - b, 0.0)
+        tau_lo = (30.8 + (211.4 + save_exp(a_lo))) / (3.7 * (1 + save_exp(b_lo)))
+        tau_hi = ((30.8 + 211.4) * save_exp(-b_hi) + save_exp(amb_hi)) / (
+            3.7 * (save_exp(-b_hi) + 1)
         )
+        tau_u = jnp.where(pos, tau_hi, tau_lo)
 
         return u_inf, tau_u
